@@ -199,12 +199,20 @@ func parseDur(s string) (y, m, d int, ok bool) {
 	return y, m, d, true
 }
 
-// calendarAdd returns every reading of "calendar-added": in the zone or in UTC,
-// with overflow normalisation (Jan 31 + 1m = Mar 2/3) or clamped to the month end,
-// days added after years and months.
-func calendarAdd(t time.Time, y, m, d int, loc *time.Location) []time.Time {
+// calendarAdd returns every reading of "calendar-added": in the zone or - when notBefore is the
+// time of the run, an instant that belongs to no calendar in particular - in UTC, with overflow
+// normalisation (Jan 31 + 1m = Mar 2/3) or clamped to the month end, days added after years and
+// months. When notBefore comes from a configured `from`, it is a calendar date in the zone (the
+// statement reads it "at local midnight"), and a duration added to a date stays in the calendar
+// in which it is one: 1 March + 1m is 1 April in that zone, not 29 March (what the UTC calendar
+// makes of it east of Greenwich). Decided with seeded change C04-w17; see DESIGN.md section 17.
+func calendarAdd(t time.Time, y, m, d int, loc *time.Location, fromGiven bool) []time.Time {
 	var out []time.Time
-	for _, l := range []*time.Location{loc, time.UTC} {
+	locs := []*time.Location{loc, time.UTC}
+	if fromGiven {
+		locs = locs[:1]
+	}
+	for _, l := range locs {
 		lt := t.In(l)
 		out = append(out, lt.AddDate(y, m, d))
 		// clamp variant
@@ -320,13 +328,13 @@ func (o *c04Oracle) AfterRun(w *World, op *Op, res *RunResult) {
 				w.Harness = "bad duration generated: " + v.Duration
 				return
 			}
-			if !inSet(na.T, calendarAdd(nb.T, y, m, d, loc)) {
-				w.Fail("not-after:duration", "%s: notBefore %s + %s (zone %s) should be one of %v, certificate has %s", e.ID, nb.T.Format(time.RFC3339), v.Duration, w.Plan.TZ, fmtTimes(calendarAdd(nb.T, y, m, d, loc)), na.T.Format(time.RFC3339))
+			if !inSet(na.T, calendarAdd(nb.T, y, m, d, loc, v.From != "")) {
+				w.Fail("not-after:duration", "%s: notBefore %s + %s (zone %s) should be one of %v, certificate has %s", e.ID, nb.T.Format(time.RFC3339), v.Duration, w.Plan.TZ, fmtTimes(calendarAdd(nb.T, y, m, d, loc, v.From != "")), na.T.Format(time.RFC3339))
 				return
 			}
 		default:
-			if !inSet(na.T, calendarAdd(nb.T, 5, 0, 0, loc)) {
-				w.Fail("not-after:default-five-years", "%s: notBefore %s + 5 years should be one of %v, certificate has %s", e.ID, nb.T.Format(time.RFC3339), fmtTimes(calendarAdd(nb.T, 5, 0, 0, loc)), na.T.Format(time.RFC3339))
+			if !inSet(na.T, calendarAdd(nb.T, 5, 0, 0, loc, v.From != "")) {
+				w.Fail("not-after:default-five-years", "%s: notBefore %s + 5 years should be one of %v, certificate has %s", e.ID, nb.T.Format(time.RFC3339), fmtTimes(calendarAdd(nb.T, 5, 0, 0, loc, v.From != "")), na.T.Format(time.RFC3339))
 				return
 			}
 		}
